@@ -44,6 +44,7 @@ pub fn run(ctx: &mut Ctx) {
         let extended = i % 2 == 1;
         let r = wf::generate(&mut rng, extended);
         ctx.count(if extended { "recipe:extended" } else { "recipe:canonical" });
+        if r.blocks.iter().any(|b| matches!(b, wf::Block::Components(_))) { ctx.count("recipe:with-components-mode-block"); }
         for (k, st) in styles(&mut rng).iter().enumerate() {
             let text = wf::spell(&r, st);
             check_spelling(ctx, &r, &text, &format!("style#{k}"));
